@@ -94,7 +94,13 @@ def bound_names_inside(src, lo, hi):
     return names
 
 
-def lift_conflict_block(repo, gen):
+CONFLICT_DECLARED = ["actions", "follow_term", "item", "new_reduce", "prod", "self", "state"]
+
+
+def conflict_block_range(repo):
+    """Locate the conflict-resolution statements (the `else` arm of `if actions.is_empty()` in calculate_reductions),
+    check every structural assumption of the lift, and return (block_text, then_body, meta).  Used by the Kani lift
+    below and by the Verus lift (vx directive `//@lift ALIAS conflict_block`, rule R-LIFT)."""
     rel = "rustemo-compiler/src/table/mod.rs"
     src = rsx.Source(os.path.join(repo, rel))
     imp = src.find_impl(r"^impl < 'g , 's > LRTable < 'g , 's >", has="calculate_reductions")
@@ -127,12 +133,42 @@ def lift_conflict_block(repo, gen):
     # names (re)bound inside the range itself (closure parameters, lets) shadow outer ones of the same name
     inside = bound_names_inside(src, ob + 1, cb)
     free = sorted(((outside & used) - inside) | ({"self"} if "self" in used else set()))
-    declared = ["actions", "follow_term", "item", "new_reduce", "prod", "self", "state"]
+    declared = CONFLICT_DECLARED
     if free != declared:
         raise ExtractError(f"conflict block: free variables changed: now {free}, declared {declared}")
     # log! statements inside are kept verbatim (none today)
     sha = hashlib.sha256(block_text.encode()).hexdigest()[:16]
     a, z = src.line_of(t[ob].s), src.line_of(t[cb].e)
+    if then_body != "actions.push(new_reduce.clone());":
+        raise ExtractError(f"conflict block: the no-conflict arm changed: {then_body!r}")
+    meta = {"lift": "conflict_block", "file": rel, "lines": [a, z], "sha256_16": sha, "free_variables": declared}
+    return block_text, then_body, meta
+
+
+VERUS_CONFLICT_HEADER = """impl<'g, 's> LRTable<'g, 's> {
+    fn conflict_block(
+        &self,
+        state: &LRState<'g>,
+        item: &LRItem,
+        prod: &Production,
+        follow_term: &Terminal,
+        actions: &mut Vec<Action>,
+        new_reduce: Action,
+    ) {"""
+
+
+def verus_conflict_source(repo):
+    """Text of a virtual source file for the Verus unit: the lifted statements, verbatim, as the body of a method of the
+    real `impl LRTable` whose receiver/parameters are exactly the free variables of the range (same header as the Kani
+    lift compiled against the real crate, where rustc checks the parameter types against the real call site's types)."""
+    block_text, then_body, meta = conflict_block_range(repo)
+    return VERUS_CONFLICT_HEADER + block_text + "    }\n}\n", meta
+
+
+def lift_conflict_block(repo, gen):
+    block_text, then_body, meta = conflict_block_range(repo)
+    rel, declared, sha = meta["file"], meta["free_variables"], meta["sha256_16"]
+    a, z = meta["lines"]
     out = f"""// GENERATED by /verif/tools/lift.py on every run -- do not edit.  BLOCK LIFT (not an extraction for Verus):
 // lines {a}-{z} of {rel} (sha256/16 {sha}), the `else` arm of `if actions.is_empty()` in
 // LRTable::calculate_reductions, copied verbatim into methods whose receiver/parameters are exactly the
@@ -212,11 +248,9 @@ impl<'g, 's> RecCtx<'g, 's> {{
     }}
 }}
 """
-    if then_body != "actions.push(new_reduce.clone());":
-        raise ExtractError(f"conflict block: the no-conflict arm changed: {then_body!r}")
     os.makedirs(gen, exist_ok=True)
     open(os.path.join(gen, "conflict_block.rs"), "w").write(out)
-    return {"lift": "conflict_block", "file": rel, "lines": [a, z], "sha256_16": sha, "free_variables": declared}
+    return meta
 
 
 def lift_cli_mapping(repo, gen):
